@@ -221,6 +221,13 @@ func execFork(p *Process, argv []string) error {
 		return err
 	}
 
+	if err != nil && strings.HasPrefix(err.Error(), "signal:") && p.ExitNum == 0 {
+		// Killed by a signal. That isn't reported as an error message but the
+		// command hasn't succeeded either, so `try`, `&&` and `||` must not
+		// see a zero exit number.
+		p.ExitNum = 1
+	}
+
 	//mxdtR.Close()
 	return nil
 }
